@@ -21,7 +21,7 @@ MARGIN = 17       # zero margin of the "smooth" page content (so that cutting in
 def bounds(family, **kw):
     b = {"Family": family, "Ns": [2, 3, 4, 5], "DXs": [12], "DYs": [0], "Curvs": [0], "X0s": [20], "Y0s": [60],
          "Ascs": [12], "Descs": [5], "Hs": [16], "Polys": [0, 1, 2], "Scales": [10], "PageH": 130, "PageW": 170,
-         "Kinds": ["smooth"], "Shifts": [0], "record_px": False}
+         "Kinds": ["smooth"], "Shifts": [0], "record_px": False, "via": "engine"}
     b.update(kw)
     return b
 
@@ -63,7 +63,7 @@ def enumerate_cases(b):
             out.append({"pts": pts, "asc": asc, "desc": desc, "H": h, "poly": poly, "sc": sc,
                         "page": {"kind": kind, "h": b["PageH"] + s, "w": b["PageW"] + s, "ox": s, "oy": s},
                         "base": {"h": b["PageH"], "w": b["PageW"]}, "record_px": bool(b["record_px"]),
-                        "shift": s, "gen": [n, x0, y0, dx, dy, c]})
+                        "shift": s, "gen": [n, x0, y0, dx, dy, c], "via": b.get("via", "engine")})
     return out
 
 
@@ -136,7 +136,12 @@ def run_case(case):
     ev = {"inp": "none", "cwin": 0, "path": "none", "kind": "none", "h": 0, "w": 0}
     rec = {"pts": case["pts"], "asc": case["asc"], "desc": case["desc"], "H": case["H"], "poly": case["poly"],
            "sc": case["sc"], "page": case["page"], "outcome": "ok", "ev": ev, "px": [], "ref": [], "msg": False}
-    ce = EngineLineCropper(line_height=case["H"], poly=case["poly"], scale=case["sc"] / 10)
+    lc = None
+    if case.get("via") == "linecropper":        # the pipeline's wrapper (page_parser.LineCropper.process_page) around the same engine
+        lc = _line_cropper(case)
+        ce = lc.crop_engine
+    else:
+        ce = EngineLineCropper(line_height=case["H"], poly=case["poly"], scale=case["sc"] / 10)
     real_inputs, real_remap = ce.get_crop_inputs, ce.fast_remap
     _PROXY.calls = []
     _PROXY.page = img
@@ -167,7 +172,10 @@ def run_case(case):
     try:
         with contextlib.redirect_stdout(buf), np.errstate(all="ignore"), warnings.catch_warnings():
             warnings.simplefilter("ignore")
-            crop = ce.crop(img, np.array(case["pts"], dtype=float), [case["asc"], case["desc"]])
+            if lc is not None:
+                crop = _process_page(lc, img, case)
+            else:
+                crop = ce.crop(img, np.array(case["pts"], dtype=float), [case["asc"], case["desc"]])
     except Exception as ex:       # the statement says "never an error": recorded, not a harness failure
         rec["outcome"] = "exception:" + type(ex).__name__
     finally:
@@ -191,6 +199,25 @@ def run_case(case):
     return rec
 
 
+def _line_cropper(case):
+    import configparser
+    from pero_ocr.document_ocr.page_parser import LineCropper
+    cp = configparser.ConfigParser()
+    cp.read_string("[LINE_CROPPER]\nINTERP = %d\nLINE_SCALE = %s\nLINE_HEIGHT = %d\n" % (case["poly"], case["sc"] / 10, case["H"]))
+    return LineCropper(cp["LINE_CROPPER"])
+
+
+def _process_page(lc, img, case):
+    from pero_ocr.core.layout import PageLayout, RegionLayout, TextLine
+    pl = PageLayout(id="p", page_size=(img.shape[0], img.shape[1]))
+    reg = RegionLayout("r1", np.array([[0, 0], [img.shape[1], 0], [img.shape[1], img.shape[0]], [0, img.shape[0]]]))
+    reg.lines.append(TextLine(id="l1", baseline=np.array(case["pts"], dtype=float), polygon=np.array([[0, 0], [1, 0], [1, 1]]),
+                              heights=[case["asc"], case["desc"]]))
+    pl.regions.append(reg)
+    lc.process_page(img, pl)
+    return reg.lines[0].crop
+
+
 def label(case):
     return "pts=%s heights=[%d,%d] H=%d poly=%d scale=%.1f page=%s" % (
         case["pts"], case["asc"], case["desc"], case["H"], case["poly"], case["sc"] / 10, case["page"])
@@ -201,3 +228,9 @@ def frac_high(pts):
     s = dx * dx + dy * dy
     k = math.isqrt(s)
     return (10 * k + 9) ** 2 <= 100 * s
+
+
+def integer_length(pts):
+    dx, dy = pts[-1][0] - pts[0][0], pts[-1][1] - pts[0][1]
+    s = dx * dx + dy * dy
+    return dy != 0 and math.isqrt(s) ** 2 == s
